@@ -257,6 +257,108 @@ def run_pred(payload):
 
 
 # =================================================================================================
+# new query system: SimplePredicateVisitor.apply_logical_* (rebuild a predicate from per-leaf replacements)
+# =================================================================================================
+
+def run_visit(payload):
+    """payload: {"n": natoms, "cases": [{"f": formula, "sub": {"<atom>": formula}}], "max_literals": int}
+    A SimplePredicateVisitor subclass returns, for every leaf on atom k, the Predicate built from sub[k] (None when
+    k is not substituted); the predicate built from f is visited with it.
+    -> list of {"ops" (operands of the predicate built from f), "sub_ops" {atom: operands}, "res" (operands of the
+       visited result; the original when the visitor returned None), "none": bool, "tv", "td"} | {"error"} | {"skip"}"""
+    Predicate, mk_atom, Eval, cnf_json, direct_value = _pred_env()
+    from lsst.daf.butler.queries.visitors import SimplePredicateVisitor
+    n = payload["n"]
+    asg = assignments(n)
+    maxlit = payload.get("max_literals", 120)
+
+    def size(p):
+        return sum(len(g) for g in p.operands)
+
+    class TooBig(Exception):
+        pass
+
+    def build(f):
+        t = f[0]
+        if t == "a":
+            return mk_atom(f[1], f[2] if len(f) > 2 else 0)
+        if t == "c":
+            return Predicate.from_bool(bool(f[1]))
+        if t == "n":
+            p = build(f[1])
+            groups = 1
+            for g in p.operands:
+                groups *= max(len(g), 1)
+                if groups * max(len(p.operands), 1) > maxlit:
+                    raise TooBig()
+            return p.logical_not()
+        if t in "&|":
+            ps = [build(g) for g in f[1:]]
+            if t == "|":
+                groups = 1
+                for q in ps:
+                    groups *= max(len(q.operands), 1)
+                if groups * sum(max((len(g) for g in q.operands), default=0) for q in ps) > maxlit:
+                    raise TooBig()
+            r = ps[0].logical_and(*ps[1:]) if t == "&" else ps[0].logical_or(*ps[1:])
+            if size(r) > maxlit:
+                raise TooBig()
+            return r
+        raise ValueError(f"bad formula node {t}")
+
+    class Sub(SimplePredicateVisitor):
+        def __init__(self, repl):
+            self.repl = repl
+
+        def visit_comparison(self, a, operator, b, flags):
+            return self.repl.get(int(a.value))
+
+        def visit_is_null(self, operand, flags):
+            return self.repl.get(int(operand.value))
+
+        def visit_in_container(self, member, container, flags):
+            return self.repl.get(int(member.value))
+
+        def visit_in_range(self, member, start, stop, step, flags):
+            return self.repl.get(int(member.value))
+
+    def table(p):
+        return "".join(p.visit(Eval(v)) for v in asg)
+
+    out = []
+    _limits()
+    for c in payload["cases"]:
+        try:
+            _arm()
+            p = build(c["f"])
+            repl = {int(k): build(g) for k, g in c["sub"].items()}
+            if size(p) * max([1] + [size(q) + len(q.operands) for q in repl.values()]) > 4 * maxlit:
+                raise TooBig()
+            r = p.visit(Sub(repl))
+            none = r is None
+            if none:
+                r = p
+            if size(r) > 4 * maxlit:
+                raise TooBig()
+            out.append({"ops": cnf_json(p.operands), "sub_ops": {str(k): cnf_json(q.operands) for k, q in repl.items()},
+                        "res": cnf_json(r.operands), "none": none, "tv": table(r),
+                        "td": "".join(direct_value(r.operands, v) for v in asg), "str": str(r)[:300]})
+        except TooBig:
+            out.append({"skip": "too big"})
+        except MemoryError:
+            out.append({"skip": "memory"})
+        except CaseTimeout:
+            out.append({"error": "Timeout", "msg": f"more than {CASE_SECONDS} s"})
+        except RecursionError:
+            out.append({"error": "RecursionError"})
+        except Exception as e:  # noqa: BLE001
+            out.append({"error": err_class(e), "msg": str(e)[:200]})
+        finally:
+            _disarm()
+    return out
+
+
+# =================================================================================================
 # legacy query system
 # =================================================================================================
 
